@@ -31,7 +31,8 @@ META = {
 
 OBSERVABLES = ('metrics_by_handle', 'alert_by_handle', 'component_by_handle', 'context_by_handle',
                'operation_by_handle', 'waveform_by_handle', 'new_descriptors_by_handle',
-               'updated_descriptors_by_handle', 'deleted_descriptors_by_handle', 'description_modifications')
+               'updated_descriptors_by_handle', 'deleted_descriptors_by_handle', 'deleted_states_by_handle',
+               'description_modifications')
 
 
 def park_role_workers():
@@ -121,6 +122,11 @@ class PairRunner:
                         named.add(('e', d.Handle))
                     for s in part.State:
                         named.add(('c', s.Handle) if s.is_context_state else ('e', s.DescriptorHandle))
+                continue
+            if name == 'deleted_states_by_handle':  # {descriptor handle: [states that went with the descriptor]}
+                for states in value.values():
+                    for st_ in (states if isinstance(states, (list, tuple)) else [states]):
+                        named.add(('c', st_.Handle) if st_.is_context_state else ('e', st_.DescriptorHandle))
                 continue
             for obj in value.values():
                 if getattr(obj, 'is_descriptor_container', False):
